@@ -22,7 +22,7 @@ def busRead (c : Core) (addr : U16) : Except Stop (U16 × Core) :=
   | .ok (v, bus, evs, accs) => .ok (v, ({ c with bus := bus, log := accs.reverse ++ c.log } : Core).emit evs)
   | .error e => .error (.abort e)
 
-theorem dataWrite_run (addr v : U16) (c : Core) :
+theorem dataWrite_run9 (addr v : U16) (c : Core) :
     (dataWrite addr v).run c = (busWrite c addr v).map fun c' => ((), c') := by
   unfold dataWrite busWrite
   rw [run_bind, run_get, except_ok_bind, fst_mk, snd_mk, run_bind]
@@ -30,7 +30,7 @@ theorem dataWrite_run (addr v : U16) (c : Core) :
   | error e => rfl
   | ok x => obtain ⟨bus, evs, accs⟩ := x; rfl
 
-theorem dataRead_run (addr : U16) (c : Core) : (dataRead addr).run c = busRead c addr := by
+theorem dataRead_run9 (addr : U16) (c : Core) : (dataRead addr).run c = busRead c addr := by
   unfold dataRead busRead
   rw [run_bind, run_get, except_ok_bind, fst_mk, snd_mk, run_bind]
   cases c.bus.dataRead addr false with
